@@ -149,3 +149,56 @@ def pt(p):
 
 def is_nan(x):
     return isinstance(x, float) and math.isnan(x)
+
+
+def deep_state(obj, skip=("_writers", "_logger", "_lock")):
+    """A canonical, hashable rendering of *everything* reachable from a real object (its __dict__ / __slots__, recursively),
+    so that state the hand-written canonical forms do not know about (a new cache, a flag) still separates two states.
+    Floats are rounded to 9 decimals; writers, loggers and locks are skipped; cycles are cut."""
+    import enum
+    import numpy as _np
+    seen = {}
+
+    def walk(o, depth):
+        if o is None or isinstance(o, (bool, int, str, bytes)):
+            return o if not isinstance(o, enum.Enum) else str(o)
+        if isinstance(o, enum.Enum):
+            return str(o)
+        if isinstance(o, float):
+            return "nan" if o != o else round(o, 9) + 0.0
+        if isinstance(o, _np.generic):
+            return walk(o.item(), depth)
+        if isinstance(o, _np.ndarray):
+            return ("nd", o.shape, tuple(walk(float(v), depth) for v in o.ravel()[:64]))
+        if depth > 8:
+            return "..."
+        i = id(o)
+        if i in seen:
+            return ("ref", seen[i])
+        seen[i] = len(seen)
+        if isinstance(o, dict):
+            return ("d",) + tuple(sorted(((repr(walk(k, depth + 1)), walk(v, depth + 1)) for k, v in o.items()), key=lambda kv: kv[0]))
+        if isinstance(o, (list, tuple)):
+            return ("l",) + tuple(walk(v, depth + 1) for v in o)
+        if isinstance(o, (set, frozenset)):
+            return ("s",) + tuple(sorted(repr(walk(v, depth + 1)) for v in o))
+        if callable(o) and not hasattr(o, "__dict__"):
+            return ("fn", getattr(o, "__qualname__", type(o).__name__))
+        if callable(o) and hasattr(o, "__qualname__"):
+            return ("fn", o.__qualname__)
+        names = []
+        for klass in type(o).__mro__:
+            names += list(getattr(klass, "__slots__", ()) or ())
+        if hasattr(o, "__dict__"):
+            names += list(vars(o))
+        out = [type(o).__name__]
+        for n in sorted(set(names)):
+            if n in skip or n.startswith("__"):
+                continue
+            try:
+                v = getattr(o, n)
+            except AttributeError:
+                continue
+            out.append((n, walk(v, depth + 1)))
+        return tuple(out)
+    return walk(obj, 0)
